@@ -15,7 +15,6 @@ import (
 	"os"
 	"path/filepath"
 	"sort"
-	"strings"
 
 	"github.com/influxdata/influxdb/v2/tsdb/index/tsi1"
 	"verifh/vh"
@@ -503,5 +502,3 @@ func main() {
 	}
 	w.Finish()
 }
-
-var _ = strings.Join
